@@ -491,25 +491,59 @@ func ruleOrders(rule string) RuleFn {
 			})
 			c.Check(found, rule, "(b) "+nm+" adds its node to the graph", "newGraphNode call", nm+" no longer adds a graph node: its dependencies are invisible to cycle detection", nil, nil)
 		}
-		// (c)
-		sc := c.Fn(rule, "(*dig.Scope).Scope")
-		if sc == nil {
+		// (c) in Scope.Scope itself, or in a helper it calls with (parent, child)
+		top := c.Fn(rule, "(*dig.Scope).Scope")
+		if top == nil {
 			return
 		}
+		sc, parent, child := top, "p:s", "dig.newScope()"
 		var loop *rangeLoop
 		for _, l := range rangeLoops(sc) {
-			if l.over == "p:s.gh.nodes" {
+			if l.over == parent+".gh.nodes" {
 				loop = l
 			}
+		}
+		if loop == nil {
+			an.Instrs(top, func(in ssa.Instruction) {
+				k, ok := in.(*ssa.Call)
+				if !ok || loop != nil {
+					return
+				}
+				h := an.StaticCallee(k)
+				if h == nil || !c.P.InModule(h) || h == top {
+					return
+				}
+				var pe, ce string
+				for i, a := range k.Common().Args {
+					if i >= len(h.Params) {
+						break
+					}
+					switch an.Norm(a) {
+					case "p:s":
+						pe = "p:" + an.CanonParam(h.Params[i])
+					case "dig.newScope()":
+						ce = "p:" + an.CanonParam(h.Params[i])
+					}
+				}
+				if pe == "" || ce == "" {
+					return
+				}
+				for _, l := range rangeLoops(h) {
+					if l.over == pe+".gh.nodes" {
+						sc, parent, child, loop = h, pe, ce, l
+					}
+				}
+			})
 		}
 		if loop == nil {
 			c.BadAt(rule, "(c) Scope.Scope copies the parent's graph nodes", "no loop over s.gh.nodes", c.P.Pos(sc.Pos()), nil)
 			return
 		}
+		c.See(sc)
 		okCopy := false
 		for b := range loop.body {
 			for _, in := range b.Instrs {
-				if st, ok := in.(*ssa.Store); ok && strings.HasSuffix(an.Norm(st.Addr), ".gh.nodes") && strings.HasPrefix(an.Norm(st.Val), "append(") && strings.HasPrefix(an.Norm(st.Addr), "&dig.newScope()") {
+				if st, ok := in.(*ssa.Store); ok && strings.HasSuffix(an.Norm(st.Addr), ".gh.nodes") && strings.HasPrefix(an.Norm(st.Val), "append(") && strings.HasPrefix(an.Norm(st.Addr), "&"+child) {
 					if hit, _ := an.PathTo(sc, loop.header.Succs[0].Instrs[0], func(i ssa.Instruction) bool { return i.Block() == loop.header }, an.NewGates().AddInstr(st)); hit == nil || st.Block() == loop.header.Succs[0] {
 						okCopy = true
 					}
@@ -547,7 +581,7 @@ func ruleOrders(rule string) RuleFn {
 						copyOK := false
 						switch x := i2.(type) {
 						case *ssa.Call:
-							if an.CalleeName(x) == "(*dig.constructorNode).CopyOrder" && an.Norm(x.Common().Args[1]) == "p:s" && an.Norm(x.Common().Args[2]) == "dig.newScope()" {
+							if an.CalleeName(x) == "(*dig.constructorNode).CopyOrder" && an.Norm(x.Common().Args[1]) == parent && an.Norm(x.Common().Args[2]) == child {
 								recv := an.Resolve(x.Common().Args[0])
 								if ex, isEx := recv.(*ssa.Extract); isEx && ex.Tuple == ssa.Value(ta) {
 									copyOK = copyOrderBodyOK(c)
@@ -558,7 +592,7 @@ func ruleOrders(rule string) RuleFn {
 							}
 						case *ssa.MapUpdate:
 							m := an.Norm(x.Map)
-							if strings.HasSuffix(m, ".orders") && an.Norm(x.Key) == "dig.newScope()" && an.Norm(x.Value) == m+"[p:s]" && strings.Contains(m, an.Norm(ta)) {
+							if strings.HasSuffix(m, ".orders") && an.Norm(x.Key) == child && an.Norm(x.Value) == m+"["+parent+"]" && strings.Contains(m, an.Norm(ta)) {
 								copyOK = true
 							}
 						}
@@ -637,7 +671,7 @@ func ruleDFS(rule string) RuleFn {
 		for _, k := range rec {
 			v := an.Norm(k.Common().Args[1])
 			g := an.NewGates().AddEdges(an.EdgesWhere(fn, func(f an.Fact) bool {
-				return f.Neg && strings.HasSuffix(f.S, "p:info["+v+"].Visited")
+				return strings.HasPrefix(f.S, "!") && strings.HasSuffix(f.S, "p:info["+v+"].Visited")
 			})...)
 			if hit, path := an.PathTo(fn, nil, an.IsInstr(k), g); hit != nil || g.Len() == 0 {
 				c.Bad(rule, "isAcyclic recurses only into unvisited successors", "the recursive call is not guarded by !info[v].Visited", k, an.BlockPath(c.P, path))
@@ -647,7 +681,7 @@ func ruleDFS(rule string) RuleFn {
 		}
 		c.Floor(rule, "recursive calls in isAcyclic", len(rec), 1)
 		// entry guard
-		eg := an.EdgesWhere(fn, func(f an.Fact) bool { return !f.Neg && strings.HasSuffix(f.S, "p:info[p:u].Visited") })
+		eg := an.EdgesWhere(fn, func(f an.Fact) bool { return !strings.HasPrefix(f.S, "!") && strings.HasSuffix(f.S, "p:info[p:u].Visited") })
 		okEntry := false
 		for _, e := range eg {
 			tgt := e.From.Succs[e.Succ]
